@@ -74,6 +74,19 @@ def generate(rng, tier, ctx):
     c1 = hx(commit_bytes(commit_pt(7, 3, HGEN)))
     cases.append(('verify_tally %s / %s' % (c1, c1), ('tally', 'same')))
     cases.append(('verify_tally %s /' % c1, ('tally', 'single')))
+    # one side empty, the other side sums to infinity by itself: k zero-value commitments whose blinding factors cancel, and a
+    # commitment next to its negation (the other prefix byte) - 1 exactly when positives minus negatives is infinity
+    for k in (2, 3, 5):
+        for g in (HGEN, rng.choice(gl)):
+            bl = [rng.seckey() for _ in range(k - 1)]; bl.append((-sum(bl)) % N)
+            cs = ' '.join(hx(commit_bytes(commit_pt(b, 0, g))) for b in bl)
+            cases.append(('verify_tally %s /' % cs, ('tally', 'one-sided-cancel-pos')))
+            cases.append(('verify_tally / %s' % cs, ('tally', 'one-sided-cancel-neg')))
+            bl[0] = (bl[0] + 1) % N
+            cases.append(('verify_tally %s /' % ' '.join(hx(commit_bytes(commit_pt(b, 0, g))) for b in bl), ('tally', 'one-sided-off1')))
+    cb = commit_bytes(commit_pt(rng.seckey(), rng.randint(1, (1 << 64) - 1), HGEN)); cbn = bytes([cb[0] ^ 1]) + cb[1:]
+    cases.append(('verify_tally %s %s /' % (hx(cb), hx(cbn)), ('tally', 'one-sided-negation-pair-pos')))
+    cases.append(('verify_tally / %s %s' % (hx(cb), hx(cbn)), ('tally', 'one-sided-negation-pair-neg')))
     # blind_generator_blind_sum
     for _ in range(40 * n):
         k = rng.randint(0, 6); ni = rng.randint(0, k + 1)
